@@ -120,3 +120,7 @@ def run(chk):
     run_kernels(chk, items)
     L1m.settle(chk, [o for o in chk.obs if o.name.startswith("Point.Bytes")], lambda: bytes_battery(chk.seed), "Point.Bytes")
     chk.samples = [o.j() for o in chk.obs if o.name.startswith("Point.Bytes")][:5]
+
+
+def safety_net(chk):
+    return bytes_battery(chk.seed)
